@@ -1,5 +1,6 @@
 import Tsg.Driver.Ops
 import Tsg.Driver.Fn
+import Tsg.Driver.GraphIO
 
 open Driver
 
@@ -15,6 +16,8 @@ def handle (st : DState) (req : Sexp) : DState × Sexp :=
     | some tr => ({ st with tree := tr }, .list [.atom "ok", Sexp.ofNat tr.nodes.size])
     | none => (st, .list [.atom "bad-request"])
   | .list (.atom "fn" :: rest) => (st, handleFn st.tree rest)
+  | .list (.atom "json" :: rest) => (st, handleJson rest)
+  | .list (.atom "pretty" :: rest) => (st, handlePretty st.tree rest)
   | .list [.atom "ping"] => (st, .atom "pong")
   | _ => (st, .list [.atom "bad-request"])
 
